@@ -59,7 +59,9 @@ def must_call(prog, fname, targets, depth=3, _stack=None):
         return False
     cfg = f.cfg
     w = cfg.must_pass([cfg.entry], cfg.exit_points(), through)
-    res = w is None
+    # a function that never returns (abort wrappers such as _mi_assert_fail) calls nothing "on every returning path"
+    returns = any(x in cfg.reach([cfg.entry]) for x in cfg.exit_points())
+    res = w is None and returns
     prog._summ[key] = res
     return res
 
@@ -628,10 +630,17 @@ def consistent_edges(fn, e, pol):
     branch on a textually identical expression the other way (sound only while the operands of e are not re-assigned
     on the path — callers make the re-assignment a `through`/`avoid` element)"""
     cfg = fn.cfg
-    txt = fn.text(e)
+    key, flip = cfg._ckey(e)
+    val = pol != flip
 
     def ok(lab, p, q):
-        return not any(fn.text(e2) == txt and pol2 != pol for e2, pol2 in cfg.facts(lab))
+        for e2, pol2 in cfg.facts(lab):
+            if not isinstance(e2, int):
+                continue
+            k2, f2 = cfg._ckey(e2)
+            if k2 == key and (pol2 != f2) != val:
+                return False
+        return True
     return ok
 
 
